@@ -373,12 +373,130 @@ fn first_difference(a: &Value, b: &Value, path: String) -> Option<String> {
     }
 }
 
+/// C12 "forward references resolve" / "extended by user files without changing the meaning of existing names":
+/// the list plus a copy of unit and substance definitions under a fresh name that sorts before (arg 0) or after
+/// (arg 1) every other name. Every copy must mean what its original means: a copy that is refused, or missing,
+/// while the original loaded, is a reference that was not resolved.
+/// Without "lo"/"hi": one load with a copy of every definition. With them: one load per definition lo <= i < hi (of
+/// the copyable ones) with that single copy - the copy that sorts first is the first definition the resolver
+/// visits, nothing else has pulled its dependencies in yet.
+fn clone_job(st: &mut PermState, job: &Value) -> Value {
+    let first = job["arg"].as_u64().unwrap_or(0) == 0;
+    let copyable: Vec<usize> = st.defs.iter().enumerate().filter(|(_, e)| matches!(&*e.def, Def::Unit { .. } | Def::Substance { .. })).map(|(i, _)| i).collect();
+    if job["lo"].is_u64() || job["idx"].is_array() {
+        let lo = job["lo"].as_u64().unwrap_or(0) as usize;
+        let hi = (job["hi"].as_u64().unwrap_or(0) as usize).min(copyable.len());
+        // which of the copyable definitions: an explicit list, or a range
+        let which: Vec<usize> = match job["idx"].as_array() {
+            Some(a) => a.iter().filter_map(|x| x.as_u64()).filter_map(|x| copyable.get(x as usize).copied()).collect(),
+            None => copyable.get(lo..hi).unwrap_or(&[]).to_vec(),
+        };
+        let (mut copies, mut agree, mut loads) = (0usize, 0usize, 0usize);
+        let mut bad: Vec<Value> = vec![];
+        let mut msgs_equal = true;
+        for &i in &which {
+            let r = clone_load(st, first, &[i]);
+            loads += 1;
+            copies += r["copies"].as_u64().unwrap_or(0) as usize;
+            agree += r["agree"].as_u64().unwrap_or(0) as usize;
+            if !r["equal"].as_bool().unwrap_or(false) {
+                msgs_equal &= r["diff"]["messages_as_without_copies"].as_bool().unwrap_or(true);
+                if bad.len() < 8 {
+                    bad.push(json!({"copy_of": st.defs[i].name, "differs": r["diff"]["copies_that_differ"], "msgs": r["msgs"]}));
+                }
+            }
+        }
+        let equal = copies == agree && msgs_equal;
+        let mut out = json!({"set": format!("{}+copy-{}", st.kind, if first { "first" } else { "last" }), "perm": "clone", "arg": job["arg"], "k": 1,
+                             "lo": lo, "hi": hi, "copyable": copyable.len(), "n": st.defs.len() + 1, "moved": 1, "loads": loads, "copies": copies,
+                             "agree": agree, "digest": digest(&format!("{}:{}:{}", st.kind, copies, agree)), "equal": equal});
+        if !equal {
+            out["diff"] = json!({"copies_that_differ": bad, "messages_as_without_copies": msgs_equal});
+        }
+        return out;
+    }
+    let mut out = clone_load(st, first, &copyable);
+    out["copyable"] = json!(copyable.len());
+    out["arg"] = job["arg"].clone();
+    out
+}
+
+fn clone_load(st: &PermState, first: bool, which: &[usize]) -> Value {
+    let fresh = |n: &str| if first { format!("\u{1}{}", n) } else { format!("\u{10FFFD}{}", n) };
+    let mut defs: Vec<DefEntry> = st.defs.iter().map(clone_entry).collect();
+    let mut copies: Vec<(String, String)> = vec![];
+    for e in which.iter().map(|&i| &st.defs[i]) {
+        let def = match &*e.def {
+            Def::Unit { expr } => Def::Unit { expr: expr.clone() },
+            Def::Substance { properties, .. } => Def::Substance {
+                symbol: None,
+                properties: properties
+                    .iter()
+                    .map(|p| rink_core::ast::Property {
+                        name: p.name.clone(),
+                        input: p.input.clone(),
+                        input_name: p.input_name.clone(),
+                        output: p.output.clone(),
+                        output_name: p.output_name.clone(),
+                        doc: p.doc.clone(),
+                    })
+                    .collect(),
+            },
+            _ => continue,
+        };
+        copies.push((e.name.clone(), fresh(&e.name)));
+        defs.push(DefEntry { name: fresh(&e.name), def: std::rc::Rc::new(def), doc: None, category: None });
+    }
+    let n = defs.len();
+    let (ctx, msgs) = if st.kind == "currency" {
+        let (mut ctx, _) = bundled_ctx();
+        let r = ctx.load(Defs { defs });
+        (ctx, load_json(&r))
+    } else {
+        let mut ctx = Context::new();
+        let r = ctx.load(Defs { defs });
+        (ctx, load_json(&r))
+    };
+    let r = &ctx.registry;
+    let subst = |n: &str| r.substances.get(n).map(|s| format!("{:?} {:?}", s.amount, s.properties.properties));
+    let mut agree = 0usize;
+    let mut bad: Vec<Value> = vec![];
+    for (orig, copy) in &copies {
+        let same = r.units.get(orig) == r.units.get(copy) && subst(orig) == subst(copy);
+        if same {
+            agree += 1;
+        } else if bad.len() < 8 {
+            let show = |n: &str| match (r.units.get(n), r.substances.get(n)) {
+                (Some(v), _) => format!("{:?}", v).chars().take(120).collect::<String>(),
+                (None, Some(_)) => "a substance".to_string(),
+                (None, None) => "not defined".to_string(),
+            };
+            bad.push(json!({"name": orig, "original": show(orig), "copy": show(copy)}));
+        }
+    }
+    let reference: Value = serde_json::from_str(&st.reference).unwrap();
+    let refmsgs = if st.kind == "currency" { reference["load"]["currency"]["msgs"].clone() } else { reference["load"]["bundled"]["msgs"].clone() };
+    let msgs_equal = msgs["msgs"] == refmsgs;
+    let shown: Vec<String> = msgs["msgs"].as_array().map(|a| a.iter().take(6).map(|m| m.as_str().unwrap_or("").replace('\u{1}', "<first>").replace('\u{10FFFD}', "<last>")).collect()).unwrap_or_default();
+    let equal = agree == copies.len() && msgs_equal;
+    let summary = format!("{}:{}:{}", st.kind, copies.len(), agree);
+    let mut out = json!({"set": format!("{}+copies-{}", st.kind, if first { "first" } else { "last" }), "perm": "clone", "k": 1,
+                         "n": n, "moved": copies.len(), "copies": copies.len(), "agree": agree, "digest": digest(&summary), "equal": equal, "msgs": shown});
+    if !equal {
+        out["diff"] = json!({"copies_that_differ": bad, "messages_as_without_copies": msgs_equal});
+    }
+    out
+}
+
 fn perm_job(st: &mut PermState, job: &Value) -> Value {
     if job["perm"].as_str() == Some("original") {
         // the list as parsed (with re-opened categories) against the uniquely named list, both in file order
         let s = load_list(&st.kind, st.full.iter().map(clone_entry).collect());
         return json!({"set": st.kind, "perm": "original", "arg": 0, "k": 1, "n": st.full.len(), "moved": 0, "digest": digest(&s),
                       "equal": s == st.reference, "dropped": st.dropped});
+    }
+    if job["perm"].as_str() == Some("clone") {
+        return clone_job(st, job);
     }
     let order = perm_indices(st, job);
     let k = job["k"].as_u64().unwrap_or(1).max(1) as usize;
@@ -421,6 +539,44 @@ fn perm_job(st: &mut PermState, job: &Value) -> Value {
 // ---------------------------------------------------------------------------------------------
 // C12 G: small sets, one self-contained text per definition
 
+/// each file: the texts of its definitions concatenated; every file parsed on its own, the parsed lists concatenated
+fn parse_files(texts: &[String], files: &[Vec<usize>]) -> Vec<DefEntry> {
+    files
+        .iter()
+        .map(|f| {
+            let t: String = f.iter().map(|&i| texts[i].as_str()).collect::<Vec<_>>().join("");
+            gnu_units::parse_str(&t).defs
+        })
+        .flatten()
+        .collect()
+}
+
+fn case_files(case: &Value) -> Vec<Vec<usize>> {
+    case.as_array()
+        .map(|fs| fs.iter().map(|f| f.as_array().map(|a| a.iter().map(|x| x.as_u64().unwrap_or(0) as usize).collect()).unwrap_or_default()).collect())
+        .unwrap_or_default()
+}
+
+/// "forward references resolve": every definition of the first case once more, on its own, as a second load on
+/// top of the finished database (where every reference is a backward reference). A definition the first load
+/// refused although it loads now was refused for a reference that is defined in the set.
+fn reload_alone(texts: &[String], files: &[Vec<usize>]) -> Value {
+    let n = parse_files(texts, files).len();
+    let mut out = vec![];
+    for i in 0..n {
+        let r = std::panic::catch_unwind(|| {
+            let mut ctx = Context::new();
+            let _ = ctx.load(Defs { defs: parse_files(texts, files) });
+            let d = parse_files(texts, files).swap_remove(i);
+            let key = entry_key(&d);
+            let r = ctx.load(Defs { defs: vec![d] });
+            json!({"ns": key.0, "name": key.1, "load": load_json(&r)})
+        });
+        out.push(r.unwrap_or_else(|_| json!({"panic": true})));
+    }
+    Value::Array(out)
+}
+
 fn gen_job(job: &Value) -> Value {
     let texts: Vec<String> = job["texts"].as_array().map(|a| a.iter().map(|x| x.as_str().unwrap_or("").to_string()).collect()).unwrap_or_default();
     let cases = job["cases"].as_array().cloned().unwrap_or_default();
@@ -430,20 +586,9 @@ fn gen_job(job: &Value) -> Value {
     let mut groups: Vec<(String, Value, u64)> = vec![]; // distinct dumps in order of first appearance
     for (ci, case) in cases.iter().enumerate() {
         // case: list of files, each a list of indices into texts
-        let files: Vec<Vec<usize>> = case
-            .as_array()
-            .map(|fs| fs.iter().map(|f| f.as_array().map(|a| a.iter().map(|x| x.as_u64().unwrap_or(0) as usize).collect()).unwrap_or_default()).collect())
-            .unwrap_or_default();
+        let files = case_files(case);
         let r = std::panic::catch_unwind(|| {
-            // each file: the texts of its definitions concatenated; parse every file on its own, concatenate the parsed lists
-            let defs: Vec<DefEntry> = files
-                .iter()
-                .map(|f| {
-                    let t: String = f.iter().map(|&i| texts[i].as_str()).collect::<Vec<_>>().join("");
-                    gnu_units::parse_str(&t).defs
-                })
-                .flatten()
-                .collect();
+            let defs = parse_files(&texts, &files);
             let mut ctx = Context::new();
             let r = ctx.load(Defs { defs });
             serde_json::to_string(&full_dump(&ctx, &load_json(&r))).unwrap()
@@ -475,7 +620,12 @@ fn gen_job(job: &Value) -> Value {
     }
     let groups: Vec<Value> = groups.into_iter().map(|g| json!({"digest": g.1, "loads": g.2})).collect();
     let d0: Value = first.as_ref().map(|s| serde_json::from_str(s).unwrap()).unwrap_or(Value::Null);
-    json!({"id": job["id"], "ncases": cases.len(), "digest": first.as_ref().map(|s| digest(s)), "dump": d0, "diffs": diffs, "crashes": crashes, "groups": groups})
+    let reload = match (cases.first(), &first) {
+        (Some(c), Some(_)) => reload_alone(&texts, &case_files(c)),
+        _ => Value::Null,
+    };
+    json!({"id": job["id"], "ncases": cases.len(), "digest": first.as_ref().map(|s| digest(s)), "dump": d0, "diffs": diffs, "crashes": crashes, "groups": groups,
+           "reload": reload})
 }
 
 // ---------------------------------------------------------------------------------------------
@@ -671,7 +821,7 @@ fn write_results(path: &str, jobs: &[Value], results: Vec<Value>) {
                 r["id"] = id.clone();
             }
         }
-        for k in ["perm", "arg", "k"] {
+        for k in ["perm", "arg", "k", "idx"] {
             if r.get(k).is_none() {
                 if let Some(v) = job.get(k) {
                     r[k] = v.clone();
@@ -712,6 +862,8 @@ fn main() {
             for j in 0..n {
                 perms.push(("random".into(), seed.wrapping_mul(1000).wrapping_add(j)));
             }
+            jobs.push(json!({"perm": "clone", "arg": 0, "k": 1}));
+            jobs.push(json!({"perm": "clone", "arg": 1, "k": 1}));
             for (p, a) in &perms {
                 for k in 1..=3u64 {
                     if p == "original" && k > 1 {
